@@ -21,9 +21,10 @@ def specDecompress (w h bpp : Nat) (c : Bool) (d : Bytes) : String :=
     if c then
       match rle16Decode w h d with
       | some flat =>
-        if noFirstLineCrossing w h d then
-          "ok " ++ showOut (natsToBytes ((topDown w flat).flatMap widen565))
-        else "-"
+        let want := "ok " ++ showOut (natsToBytes ((topDown w flat).flatMap widen565))
+        -- streams with an order crossing the end of the first scanline: the reference
+        -- decoder's answer is still reported, under the class of the recorded known finding
+        if noFirstLineCrossing w h d then want else "X:first-line-crossing:" ++ want
       | none => "-"
     else
       if d.length < w * h * 2 then "E" else
